@@ -85,17 +85,34 @@ func c12sRun(sc *C12SScenario) (v *nodeViolation, flags map[string]bool) {
 	trusted := func(what string, f func()) *nodeViolation {
 		done := make(chan struct{})
 		go func() { defer close(done); f() }()
+		anyStalled := false
+		for _, c := range conns {
+			if c.stalled {
+				anyStalled = true
+			}
+		}
+		if !anyStalled {
+			<-done // nothing can hold it up: slowness of the machine is not a verdict
+			return nil
+		}
 		select {
 		case <-done:
 			return nil
 		case <-time.After(3 * time.Second):
+		}
+		// a step that is merely slow (loaded machine) finishes eventually, a blocked one never does
+		select {
+		case <-done:
+			flags["slow-trusted-step"] = true
+			return nil
+		case <-time.After(40 * time.Second):
 			var w []string
 			for i, c := range conns {
 				if c.stalled {
 					w = append(w, fmt.Sprintf("connection %d stalled (queue %d/100, wedged %v, tracks %d)", i, len(c.u.un.outgoing.Channel), c.wedged, 0))
 				}
 			}
-			return &nodeViolation{"C12/trusted-blocked-by-untrusted", fmt.Sprintf("%s did not complete within 3 s while an untrusted peer was not reading: %v", what, w)}
+			return &nodeViolation{"C12/trusted-blocked-by-untrusted", fmt.Sprintf("%s did not complete within 43 s while an untrusted peer was not reading: %v", what, w)}
 		}
 	}
 	// a step of an untrusted connection runs in that connection's goroutine; once stalled it may block
@@ -240,7 +257,7 @@ func genC12S(t *rapid.T) *C12SScenario {
 	return sc
 }
 
-const c12sRule = "step-mode histories with 2-3 verified untrusted connections whose outgoing queues have the production size (100) and are never drained once the connection stalls (peer not reading, socket full): announcements of up to 12 000 txids, the same txids from several connections, time steps across the 3 s request window, connection activity, trusted announcements, pings and mined blocks; steps of a stalled connection run in their own goroutine and may block for good; oracle: every trusted-side step (message handling, block processing, ping, final convergence) completes within 3 s and the node reaches the trusted peer's tip; non-trivial = the trusted peer mines after a connection stalled; distinct by scenario hash"
+const c12sRule = "step-mode histories with 2-3 verified untrusted connections whose outgoing queues have the production size (100) and are never drained once the connection stalls (peer not reading, socket full): announcements of up to 12 000 txids, the same txids from several connections, time steps across the 3 s request window, connection activity, trusted announcements, pings and mined blocks; steps of a stalled connection run in their own goroutine and may block for good; oracle: every trusted-side step (message handling, block processing, ping, final convergence) completes (a step still running after 43 s with a stalled connection present counts as blocked) and the node reaches the trusted peer's tip; non-trivial = the trusted peer mines after a connection stalled; distinct by scenario hash"
 
 func TestC12Stalled(t *testing.T) {
 	rep := verifkit.NewReport("C12", "TestC12Stalled", c12sRule)
